@@ -1404,3 +1404,54 @@ def _merge(cond, a, b):
         mid = tuple(("when", cond, i) for i in ra) + tuple(("when", mk_not(cond), i) for i in rb)
         return mk_list(common + mid + suffix)
     return mk_if(cond, a, b)
+
+
+# --------------------------------------------------------------------------------------------------------
+# flat text of a string value (what the generated text looks like, holes for what is not a string literal)
+
+HO, HC = "\ue000", "\ue001"  # hole delimiters inside flat text
+
+
+def flatten(v) -> str:
+    """Text of a string value with holes HO<term>HC.  indent / dedent with constant prefixes are applied to the
+    text; a join over a comprehension becomes ⟦for $d in <iter>: body⟧."""
+    t = v[0]
+    if t == "c":
+        return v[1] if isinstance(v[1], str) else str(v[1])
+    if t == "s":
+        out = []
+        for p in v[1]:
+            if p[0] == "lit":
+                out.append(p[1])
+            else:
+                out.append(_flat_hole(p[1]))
+        return "".join(out)
+    return _flat_hole(v)
+
+
+def _flat_hole(v) -> str:
+    t = v[0]
+    if t in ("c", "s"):
+        return flatten(v)
+    if t == "call" and v[1] == "indent" and len(v[2]) >= 2 and v[2][1][0] == "c" and not v[3]:
+        return textwrap.indent(flatten(v[2][0]), v[2][1][1])
+    if t == "call" and v[1] == "dedent" and len(v[2]) == 1:
+        return textwrap.dedent(flatten(v[2][0]))
+    if t == "join":
+        sep = flatten(v[1]) if _is_str(v[1]) else None
+        seq = v[2]
+        if sep is not None and seq[0] == "list":
+            out = []
+            for it in seq[1]:
+                if it[0] == "spread" and it[1][0] == "comp":
+                    cp = it[1]
+                    cs = "".join(f" if {show(c)}" for c in cp[4])
+                    out.append(f"⟦for ${cp[1]} in {show(cp[2])}{cs}: " + sep.join(flatten(i) if _is_str(i) else HO + show(i) + HC for i in cp[3]) + "⟧")
+                elif it[0] in ("spread", "when"):
+                    out.append(HO + show(it) + HC)
+                else:
+                    out.append(flatten(it) if _is_str(it) else HO + show(it) + HC)
+            return sep.join(out)
+        if sep is not None and seq[0] == "comp":
+            return _flat_hole(("join", v[1], ("list", (("spread", seq),))))
+    return HO + show(v) + HC
